@@ -37,6 +37,7 @@ theorem mergeEdges_nodes_spec {g g' : Graph κ} (h : SValid g) {eid1 eid2 : Int}
       edge1.nid d = edge2.nid d ∧ edge1.opics = edge2.opics ∧
       edge2.nid (!d) ≠ g.nidTerminal.1 ∧ edge2.nid (!d) ≠ g.nidTerminal.2 ∧
       (N1.eids d).length = 1 ∧ (N2.eids d).length = 1 ∧ N1.qnum = N2.qnum ∧
+      ((edge1.nid (!d) = g.nidTerminal.1 ∨ edge1.nid (!d) = g.nidTerminal.2) → (N2.eids (!d)).erase eid2 = []) ∧
       g'.nidTerminal = g.nidTerminal ∧
       g'.edges = (dErase g.edges eid2).map (fun p => (p.1, redirE d (edge2.nid (!d)) (edge1.nid (!d)) p.2)) ∧
       dKeys g'.nodes = (dKeys g.nodes).erase (edge2.nid (!d)) ∧
@@ -59,7 +60,7 @@ theorem mergeEdges_nodes_spec {g g' : Graph κ} (h : SValid g) {eid1 eid2 : Int}
   obtain ⟨hcb, rfl⟩ := hfb
   simp only [hnp, if_false, bind_ok, pyAssert_ok, Prod.exists, beq_iff_eq, dGet_eq_ok_iff,
     Bool.not_eq_eq_eq_not, Bool.not_true, Bool.or_eq_false_iff, beq_eq_false_iff_ne] at hr
-  obtain ⟨_, hop, _, ⟨hnt1, hnt2⟩, node1, hnode1, node2, g4, hrm, _, hlen1, _, hlen2, _, hq, g5, hfold, hmodu⟩ := hr
+  obtain ⟨_, hop, _, ⟨hnt1, hnt2⟩, node1, hnode1, node2, g4, hrm, _, hlen1, _, hlen2, _, hq, _, hacq, g5, hfold, hmodu⟩ := hr
   rw [Rw.removeNode_ok] at hrm
   obtain ⟨hnode2, rfl⟩ := hrm
   simp only at hnb hnode1 hnode2
@@ -110,7 +111,17 @@ theorem mergeEdges_nodes_spec {g g' : Graph κ} (h : SValid g) {eid1 eid2 : Int}
   simp only [pure_ok] at hfcur
   subst hfcur
   refine ⟨N1, N2, hN1, hN2, hbase, hop, hnt1, hnt2, by rw [← hN1d]; exact hlen1, by rw [← hN2d]; exact hlen2,
-    by rw [← hN1q, ← hN2q]; exact hq, f2, ?_, ?_, ?_⟩
+    by rw [← hN1q, ← hN2q]; exact hq, ?_, f2, ?_, ?_, ?_⟩
+  · intro hterm1
+    rw [hN1nid, hN2u] at hacq
+    have ht : (decide (u1 = g.nidTerminal.1) || decide (u1 = g.nidTerminal.2)) = true := by
+      rcases hterm1 with q | q <;> simp [q]
+    simp only [beq_iff_eq] at hacq
+    cases hemp : ((N2.eids (!d)).erase edge2.eid).isEmpty with
+    | true => exact List.isEmpty_iff.1 hemp
+    | false =>
+      rw [hemp] at hacq
+      rcases hterm1 with q | q <;> simp [q] at hacq
   · -- edges
     apply dict_ext
     · rw [f3]; simp [dKeys, map_map, Function.comp]
@@ -299,7 +310,7 @@ theorem denD_mergeEdges_nodes {g g' : Graph κ} (h : SValid g) {eid1 eid2 : Int}
     (h1 : dGet? g.edges eid1 = some edge1) (h2 : dGet? g.edges eid2 = some edge2)
     (hnp : edge1.nid (!d) ≠ edge2.nid (!d)) (w : Word) (x : Int) (hx : x ≠ edge2.nid (!d)) :
     g'.denD d w x = g.denD d w x := by
-  obtain ⟨N1, N2, hN1, hN2, hbase, hop, hnt1, hnt2, hl1, hl2, hq, hterm, hedges, hkeys, hL⟩ :=
+  obtain ⟨N1, N2, hN1, hN2, hbase, hop, hnt1, hnt2, hl1, hl2, hq, hacq, hterm, hedges, hkeys, hL⟩ :=
     mergeEdges_nodes_spec h hr h1 h2 hnp
   have hm1 := mem_of_dGet?_eq_some h1
   have hm2 := mem_of_dGet?_eq_some h2
@@ -355,15 +366,13 @@ theorem mergeNode_eids_other (d : Bool) (eid2 u1 : Int) (L2 : List Int) (k : Int
     (mergeNode d eid2 u1 L2 k n).eids (!d) = (n.eids (!d)).erase eid2 ++ (if k = u1 then L2 else []) := by
   unfold mergeNode; cases d <;> rfl
 
-/-- `merge_edges` (node-merging case) keeps structural validity, provided the surviving upstream node is not a
-terminal that would inherit upstream edges -/
+/-- `merge_edges` (node-merging case) keeps structural validity (the assertions of the code guarantee that no
+terminal node is absorbed and that a surviving terminal node does not inherit upstream edges) -/
 theorem SValid.mergeEdges_nodes {g g' : Graph κ} (h : SValid g) {eid1 eid2 : Int} {d : Bool}
     (hr : g.mergeEdges eid1 eid2 d = .ok g') {edge1 edge2 : Edge κ}
     (h1 : dGet? g.edges eid1 = some edge1) (h2 : dGet? g.edges eid2 = some edge2)
-    (hnp : edge1.nid (!d) ≠ edge2.nid (!d))
-    (hT : edge1.nid (!d) = g.term (!d) →
-      ∀ N2, dGet? g.nodes (edge2.nid (!d)) = some N2 → (N2.eids (!d)).erase eid2 = []) : SValid g' := by
-  obtain ⟨N1, N2, hN1, hN2, hbase, hop, hnt1, hnt2, hl1, hl2, hq, hterm, hedges, hkeys, hL⟩ :=
+    (hnp : edge1.nid (!d) ≠ edge2.nid (!d)) : SValid g' := by
+  obtain ⟨N1, N2, hN1, hN2, hbase, hop, hnt1, hnt2, hl1, hl2, hq, hacq, hterm, hedges, hkeys, hL⟩ :=
     mergeEdges_nodes_spec h hr h1 h2 hnp
   have hm1 := mem_of_dGet?_eq_some h1
   have hm2 := mem_of_dGet?_eq_some h2
@@ -509,7 +518,11 @@ theorem SValid.mergeEdges_nodes {g g' : Graph κ} (h : SValid g) {eid1 eid2 : In
       rw [mergeNode_eids_other, hx]
       by_cases hk1 : g.term (!d) = u1
       · simp only [hk1, if_true, erase_nil, nil_append]
-        exact hT hk1.symm N2 hN2
+        apply hacq
+        rw [← hk1]
+        cases d
+        · right; simp [Graph.term]
+        · left; simp [Graph.term]
       · simp [hk1]
   · intro k e' he'
     obtain ⟨_, e, he, rfl⟩ := edges' he'
